@@ -429,6 +429,14 @@ class Lowering:
         m = re.fullmatch(r'(.*)\[(\d*)\]', t.strip())
         if m:
             return '%s %s[%s]' % (self.ctype(m.group(1)), name, m.group(2))
+        m = re.fullmatch(r'([^\[\]]*)\[([A-Za-z0-9_ +*\-]+)\]', t.strip())
+        if m:
+            # variable-length array: clang prints the size expression in the type (C text over locals).
+            # Printed as an alloca'd object of exactly that size (CBMC mis-handles pointer comparisons into
+            # VLAs); sizeof on such a variable is refused elsewhere.
+            et = self.ctype(m.group(1))
+            self.report.setdefault('vla_as_alloca', []).append(name)
+            return '%s *%s = (%s *)__builtin_alloca(sizeof(%s) * (size_t)(%s))' % (et, name, et, et, m.group(2))
         if '(*)' in t:
             m = re.fullmatch(r'(.*)\(\*\)\((.*)\)', t.strip())
             if not m:
@@ -1255,6 +1263,19 @@ class Lowering:
 
     def e_CXXDefaultArgExpr(self, n, ctx):
         raise Unsupported('default argument (clang does not dump its expression)')
+
+    def e_CXXThrowExpr(self, n, ctx):
+        # throw E;  ->  raise; the operand (message construction) is dropped
+        self.mark_raise(ctx.fn)
+        dmy = self.dummy(ctx.fn.rett)
+        what = ''
+        ks = kids(n)
+        if ks:
+            what = re.sub(r'[^A-Za-z0-9_:<> ]', '', ty(ks[0]))[:60]
+        ctx.pre.append('{ verif_raised = 1; return%s; } /* throw %s; operand dropped */' % ((' ' + dmy) if dmy else '', what))
+        self.report.setdefault('throws', [])
+        self.report['throws'].append('%s: throw %s' % (ctx.fn.cname, what))
+        return '((void)0)'
 
     def e_LambdaExpr(self, n, ctx):
         raise Unsupported('lambda in expression position')
